@@ -12,3 +12,6 @@ import NakenVerif.Props.C14
 import NakenVerif.Props.C15
 import NakenVerif.Props.C05
 import NakenVerif.Props.C03
+import NakenVerif.Props.C13
+import NakenVerif.Props.C18
+import NakenVerif.Props.C09
